@@ -114,6 +114,48 @@ def check_set_value(R, F, cfg, rec, width):
     R.floor("%s pins" % tag, len(pins_seen), width)
 
 
+def counter_loop_bounds(ex, l):
+    """(start, bound) of a loop driven by an integer counter: some loop-carried integer c is incremented by exactly 1 on
+    every path round the loop, and every such path was entered under the test c < B with B not changed by the loop"""
+    from poly import atom_pred_poly
+    est = l.get("entry_state")
+    if est is None or not l["cont"]:
+        return None
+    for r, v in est.mem.items():
+        if not (isinstance(v, IntV) and v.poly().is_atom() is not None and "loop:" in repr(v.poly())):
+            continue
+        ch = v.poly()
+        bound = None
+        ok = True
+        for c in l["cont"]:
+            end = c["state"].mem.get(r)
+            if not (isinstance(end, IntV) and c["state"].facts.simplify(end.poly() - ch - 1).const_value() == 0):
+                ok = False
+                break
+            b_here = None
+            for pdec, val in c["state"].facts.decisions():
+                a = pdec.is_atom()
+                if a is None or a[0] != "ge" or val != 1:
+                    continue
+                inner = atom_pred_poly(a)            # inner >= 0 was assumed: looking for B - c - 1
+                cand = inner + ch + 1
+                if ch.is_atom() in inner.atoms() and not any("loop:" in repr(x) for x in cand.atoms()):
+                    b_here = cand
+            if b_here is None or (bound is not None and bound != b_here):
+                ok = False
+                break
+            bound = b_here
+        if ok and bound is not None:
+            names = [k for k, v0 in l["entry_values"].items() if isinstance(v0, IntV)]
+            start = None
+            for k, v0 in l["entry_values"].items():
+                if isinstance(v0, IntV) and k.split("~")[0] == ex.describe_loc(r, ()):
+                    start = v0.poly()
+            if start is not None:
+                return start, bound
+    return None
+
+
 def run(R):
     R.trusted = ["rustc nightly MIR construction", "AIM interpreter (bit-sliced values, join merging, loop havoc)",
                  "embedded-hal OutputPin contract; BUS::Word: From<u8> is a pure function of the byte",
@@ -245,7 +287,14 @@ def run(R):
                 words = [[(s.cls + ":" + (s.recv or "")) if s.cls != "NEXT" else "NEXT" for s in TR.syms_of(TR.flatten_events(c["trace"], res.loops))] for c in conts]
                 # the fast path is the integer-range loop that strobes without touching the bus (the general path
                 # sets the bus in its loop and is covered by the word rules)
-                if rng and words and not any(x.startswith("BUS") for w in words for x in w) and any(x.startswith("PIN") for w in words for x in w):
+                bare = bool(words) and not any(x.startswith("BUS") for w in words for x in w) and any(x.startswith("PIN") for w in words for x in w)
+                if bare and not rng:
+                    # a counter loop `while c < B { strobe; c += 1 }`: the same trip count as the range c0..B
+                    cb = counter_loop_bounds(ex, l)
+                    if cb is not None:
+                        rng = [Agg("adt", "core::ops::range::Range", 0, [IntV(64, False, p=cb[0]), IntV(64, False, p=cb[1])], None)]
+                        words = [["NEXT"] + w for w in words]
+                if rng and bare:
                     nfast += 1
                     start, end = rng[0].fields[0].poly(), rng[0].fields[1].poly()
                     cnt = sym_int("count", 32, False)
